@@ -201,7 +201,29 @@ def selfcheck(chk, meta, names, arggen, n_cases, rtol=1e-11, atol=0.0, rtol_by_n
                 wire = [float(n)] + wire
             try:
                 with numpy.errstate(all="ignore"):
-                    e = float(fn(*call))
+                    try:
+                        e = float(fn(*call))
+                    except Exception as ex0:
+                        # an EXTRACTED assignment (not the function itself) that cannot be evaluated from the declared parameters any more
+                        # (the source was restructured around it): not the library raising — observe through the public function
+                        # instead, or report the correspondence as lost
+                        if not m["extract"] or getattr(fn, "is_observer", False):
+                            raise
+                        if name not in OBSERVERS:
+                            chk.broke("correspondence", "the extracted assignment to `%s` in %s can no longer be evaluated from its "
+                                      "parameters (%s: %s)" % (m["extract"], m["python"], type(ex0).__name__, str(ex0)[:160]))
+                            break
+                        chk.notes.append("T1: %s is observed through the public function (evaluating the assignment to `%s` raised %s: %s)"
+                                         % (name, m["extract"], type(ex0).__name__, str(ex0)[:120]))
+                        chk.count("t1:observer:" + name)
+                        obs = OBSERVERS[name]
+
+                        def fn(*a, _obs=obs):
+                            if any(isinstance(x, numpy.ndarray) and x.ndim > 0 for x in a):
+                                return numpy.vectorize(_obs, otypes=[float])(*a)
+                            return _obs(*a)
+                        fn.is_observer = True
+                        e = float(fn(*call))
             except Exception as ex:   # the real function rejects an argument from the property's domain (it never does on the
                 chk.count("t1:python-raised:" + type(ex).__name__)           # unchanged tree): a concrete failing input
                 if getattr(fn, "is_observer", False) and not (args.get("f", 1.0) > 0):
